@@ -1,0 +1,5 @@
+//go:build !verif
+
+package pogreb
+
+func verifYield(point int) {}
